@@ -36,8 +36,12 @@ var solvers = []solverDef{
 }
 
 func runSolver(sd solverDef, query string, timeoutS int) SolveResult {
+	return runSolverCtx(context.Background(), sd, query, timeoutS)
+}
+
+func runSolverCtx(parent context.Context, sd solverDef, query string, timeoutS int) SolveResult {
 	t0 := time.Now()
-	ctx, cancel := context.WithTimeout(context.Background(), time.Duration(timeoutS+2)*time.Second)
+	ctx, cancel := context.WithTimeout(parent, time.Duration(timeoutS+2)*time.Second)
 	defer cancel()
 	args := sd.cmd(timeoutS)
 	cmd := exec.CommandContext(ctx, args[0], args[1:]...)
@@ -159,21 +163,37 @@ func discharge(o *Oblig, timeoutS int, thorough bool) SolveResult {
 			}
 		}
 	}
-	first := runSolver(solvers[0], q, timeoutS)
-	tried = append(tried, fmt.Sprintf("%s:%s:%.2fs", first.Solver, first.Status, first.TimeS))
-	res := first
-	if first.Status != "unsat" && first.Status != "sat" {
-		// race the other two
-		ch := make(chan SolveResult, 2)
-		for _, sd := range solvers[1:] {
-			go func(sd solverDef) { ch <- runSolver(sd, q, timeoutS) }(sd)
+	// all three solvers at once; the first decisive answer wins and the others are stopped (quantified goals are
+	// decided now by one, now by another, and waiting for the first to time out costs more than the extra processes)
+	var res SolveResult
+	{
+		rctx, stop := context.WithCancel(context.Background())
+		ch := make(chan SolveResult, len(solvers))
+		for _, sd := range solvers {
+			go func(sd solverDef) { ch <- runSolverCtx(rctx, sd, q, timeoutS) }(sd)
 		}
-		for i := 0; i < 2; i++ {
+		decided := false
+		var firstOther *SolveResult
+		for i := 0; i < len(solvers); i++ {
 			r := <-ch
-			tried = append(tried, fmt.Sprintf("%s:%s:%.2fs", r.Solver, r.Status, r.TimeS))
-			if (r.Status == "unsat" || r.Status == "sat") && res.Status != "unsat" && res.Status != "sat" {
-				res = r
+			if decided {
+				continue
 			}
+			tried = append(tried, fmt.Sprintf("%s:%s:%.2fs", r.Solver, r.Status, r.TimeS))
+			if r.Status == "unsat" || r.Status == "sat" {
+				res = r
+				decided = true
+				stop()
+				continue
+			}
+			if firstOther == nil || r.Solver == solvers[0].name {
+				rr := r
+				firstOther = &rr
+			}
+		}
+		stop()
+		if !decided && firstOther != nil {
+			res = *firstOther
 		}
 	}
 	if res.Status != "unsat" && res.Status != "sat" && quantified(q) {
